@@ -208,12 +208,18 @@ Proof.
   cbn [fst snd osqrt oadd omul odiv Rops] in *. rewrite H, sqrt_1. repeat f_equal; field.
 Qed.
 
+Lemma dot3_comm a b : dot3 a b = dot3 b a.
+Proof. unfold dot3. ring. Qed.
+
 (* Rodrigues' rotation of a unit vector t orthogonal to the unit axis a stays a unit vector orthogonal to a *)
 Lemma rotate_unit_orth (t a : vec R) (ang : R) :
   dot3 a a = 1 -> dot3 t t = 1 -> dot3 a t = 0 ->
-  let q := rotate_around_axis Rops t a ang in dot3 q q = 1 /\ dot3 q a = 0.
+  let q := geom_rotate_around_axis Rops t a ang in dot3 q q = 1 /\ dot3 q a = 0.
 Proof.
-  intros Ha Ht Hat. cbv zeta. unfold rotate_around_axis. rewrite (vnormalized_id a Ha). cbv zeta.
+  intros Ha Ht Hat. cbv zeta. unfold geom_rotate_around_axis. cbv zeta.
+  (* the early `return inp` (tiny angle or tiny axis) hands back t itself *)
+  match goal with |- context[if ?c then _ else _] => destruct c end; [split; [exact Ht | rewrite dot3_comm; exact Hat]|].
+  rewrite (vnormalized_id a Ha).
   destruct a as [[u v] w], t as [[x y] z]. unfold dot3, vx, vy, vz in *. cbn [fst snd oadd osub omul oofZ ocos osin Rops] in *.
   pose proof (cs2 ang) as Hcs. set (c := cos ang) in *. set (s := sin ang) in *. clearbody c s.
   split; nsatz.
@@ -226,8 +232,6 @@ Proof.
   rewrite sqrt_square in H0 by lra. lra.
 Qed.
 
-Lemma dot3_comm a b : dot3 a b = dot3 b a.
-Proof. unfold dot3. ring. Qed.
 
 (* cylinder: every ring vertex lies in the end plane through P1 (resp. P2) at distance `radius` from the axis;
    the cap centres are P1 and P2 *)
@@ -259,7 +263,7 @@ Proof.
   apply Forall_forall. intros p Hp. apply in_flat_map in Hp as [k [Hk Hp]]. apply In_zrange in Hk. cbv zeta in Hp.
   apply in_flat_map in Hp as [i [_ Hp]]. cbv zeta in Hp. destruct Hp as [<-|[]].
   set (ang := odiv Rops _ _).
-  destruct (rotate_unit_orth t a ang Ha Htt Hat) as [Hq1 Hq2]. set (q := rotate_around_axis Rops t a ang) in *.
+  destruct (rotate_unit_orth t a ang Ha Htt Hat) as [Hq1 Hq2]. set (q := geom_rotate_around_axis Rops t a ang) in *.
   clearbody q.
   assert (HP : vsel Rops k [P1; P2] = P1 \/ vsel Rops k [P1; P2] = P2).
   { assert (k = 0 \/ k = 1)%Z as [-> | ->] by lia; [left|right]; reflexivity. }
@@ -284,7 +288,7 @@ Proof.
   assert (H1 : on_unit_circle (oofZ Rops 1, oofZ Rops 0, oofZ Rops 0)).
   { unfold on_unit_circle, vx, vy, vz. cbn. split; ring. }
   constructor; [exact H1|]. apply vscan_Forall; [exact H1|].
-  intros [[x y] z] i [Hc Hz]. unfold on_unit_circle, rotate_2d, vx, vy, vz in *. cbn [fst snd ocos osin osub oadd omul oofZ Rops] in *.
+  intros [[x y] z] i [Hc Hz]. unfold on_unit_circle, geom_rotate_2d, vx, vy, vz in *. cbv zeta. cbn [fst snd ocos osin osub oadd omul oofZ Rops] in *.
   split; [|reflexivity]. set (a := odiv Rops _ _). pose proof (cs2 a) as H. set (c := cos a) in *. set (s := sin a) in *.
   clearbody c s. nsatz.
 Qed.
